@@ -9,8 +9,9 @@
 (*     whether Snapshot() hands out the previous, failed snapshot again); `snapshotting`;                       *)
 (*   - WriteMulti is the code's sequence  load size / load snapshotSize + limit test / capture c.store /        *)
 (*     increaseSize(batch) / store.write(k) per key in map order (type conflict: refund that key's bytes);      *)
-(*     ClearSnapshot is  reset the snapshot store (outside c.mu) / finish under c.mu;  Size() is two loads;     *)
-(*     Snapshot, DeleteRange and Values are single steps.                                                       *)
+(*     ClearSnapshot is  reset the snapshot store key by key (outside c.mu) / finish under c.mu;  Size() is     *)
+(*     two loads;  Values is  de-duplicate in place / copy and merge;  Snapshot is  swap + snapshotSize:=Size() /  *)
+(*     reset + size:=0 (c.mu held in between);  DeleteRange is a single step.                                    *)
 (* Contract layer (C09): `amap` = newest-wins map per store, maintained by the abstract meaning of each step;   *)
 (*     ValuesContract : what the code's lazy sort/dedup returns = snapshot map overridden by hot map;           *)
 (*     Accounted      : bytes of values and keys actually held; SizeAccounting ties the counters to it;         *)
@@ -125,6 +126,9 @@ NewClear(success) == [New("clear") EXCEPT !.succ = success]
 NewDelete(ks, lo, hi, full) == [New("delete") EXCEPT !.ks = ks, !.lo = lo, !.hi = hi, !.full = full]
 NewRead(k) == [New("values") EXCEPT !.k = k]
 
+MidWrite == \E u \in Threads : th[u].pc \in {"w_reserve", "w_store"}
+SnapLocked == \E u \in Threads : th[u].pc = "s_zero"     \* some Snapshot() is inside its critical section (holds c.mu)
+
 \* ---- WriteMulti(b): b is a function from a non-empty set of keys to non-empty value sequences
 WLoad1On(t, r) ==
   /\ r.pc = "w_load1"
@@ -139,7 +143,7 @@ WCheckOn(t, r) ==
         ELSE Step(t, [r EXCEPT !.pc = "w_capture", !.n = n])
   /\ Rest0
 WCapture(t) ==
-  /\ th[t].pc = "w_capture"
+  /\ th[t].pc = "w_capture" /\ ~SnapLocked
   /\ Step(t, [th[t] EXCEPT !.pc = "w_reserve", !.cap = hotId])
   /\ Rest0
 WReserve(t) ==
@@ -166,39 +170,53 @@ WStore(t, k) ==
              /\ Step(t, fin([th[t] EXCEPT !.todo = rest, !.stored = @ \cup {k}]))
   /\ UNCHANGED <<hotId, snapshotSize, snapObjSize, snapshotting, lost, strayed>>
 
-\* ---- Snapshot(): one critical section under c.mu
-MidWrite == \E u \in Threads : th[u].pc \in {"w_reserve", "w_store"}
+\* ---- Snapshot(): one critical section under c.mu, but the counters are atomics that writers update without c.mu:
+\*      (1) swap the stores, snapshotSize := Size()   (2) reset the new hot store, size := 0.
+\*      An increaseSize/decreaseSize of a write in flight that falls between (1) and (2) is wiped out by `size := 0`.
+\*      While a thread is between (1) and (2) it holds c.mu: steps that take c.mu (capture of c.store, DeleteRange, the entry
+\*      lookup of Values, the second half of ClearSnapshot, another Snapshot) wait.
 SSnapOn(t, r) ==
-  /\ r.pc = "s_snap"
+  /\ r.pc = "s_snap" /\ ~SnapLocked
   /\ IF snapshotting
      THEN /\ Step(t, Done([r EXCEPT !.err = "inprogress"]))
           /\ Rest0
      ELSE /\ snapshotting' = TRUE
-          /\ Step(t, Done([r EXCEPT !.err = "ok"]))
           /\ IF snapObjSize # 0
              THEN \* a prior snapshot failed: hand it out again, nothing moves
-                  UNCHANGED <<ring, hotId, size, snapshotSize, snapObjSize, amap, lost, strayed>>
-             ELSE \* swap stores; the new hot store is reset; everything accounted moves to snapshotSize
+                  /\ Step(t, Done([r EXCEPT !.err = "ok"]))
+                  /\ UNCHANGED <<ring, hotId, size, snapshotSize, snapObjSize, amap, lost, strayed>>
+             ELSE \* swap stores; everything accounted so far moves to snapshotSize
+                  /\ Step(t, [r EXCEPT !.pc = "s_zero"])
                   /\ hotId' = snapId
-                  /\ ring' = [ring EXCEPT ![snapId] = Store0]
-                  /\ amap' = [amap EXCEPT ![snapId] = AMap0]
                   /\ snapshotSize' = size + snapshotSize
                   /\ snapObjSize' = size + snapshotSize
-                  /\ size' = 0
                   /\ lost' = [hot |-> 0, snap |-> lost.hot + lost.snap]
                   /\ strayed' = (strayed \/ MidWrite)
+                  /\ UNCHANGED <<ring, size, amap>>
+SZero(t) ==
+  /\ th[t].pc = "s_zero"
+  /\ ring' = [ring EXCEPT ![hotId] = Store0]
+  /\ amap' = [amap EXCEPT ![hotId] = AMap0]
+  /\ size' = 0
+  /\ Step(t, Done([th[t] EXCEPT !.err = "ok"]))
+  /\ UNCHANGED <<hotId, snapshotSize, snapObjSize, snapshotting, lost, strayed>>
 
 \* ---- ClearSnapshot(success): reset of the snapshot store outside c.mu, then the critical section
+\* snapStore.reset() runs outside c.mu and resets the 16 partitions one after the other: a reader can see one key gone and
+\* another still there, so the reset is one step per key, in any order (the partition of a key is not known to the spec)
 CResetOn(t, r) ==
-  /\ r.pc = "c_reset"
-  /\ Step(t, [r EXCEPT !.pc = "c_finish"])
-  /\ IF r.succ
-     THEN /\ ring' = [ring EXCEPT ![snapId] = Store0]
-          /\ amap' = [amap EXCEPT ![snapId] = AMap0]
-     ELSE UNCHANGED <<ring, amap>>
+  /\ r.pc = "c_reset" /\ ~SnapLocked
+  /\ IF r.succ THEN Step(t, [r EXCEPT !.pc = "c_resetting", !.todo = Keys])
+               ELSE Step(t, [r EXCEPT !.pc = "c_finish"])
+  /\ Rest0
+CResetKey(t, k) ==
+  /\ th[t].pc = "c_resetting" /\ k \in th[t].todo
+  /\ ring' = [ring EXCEPT ![snapId][k] = <<>>]
+  /\ amap' = [amap EXCEPT ![snapId][k] = [x \in Times |-> NoVal]]
+  /\ Step(t, [th[t] EXCEPT !.todo = @ \ {k}, !.pc = IF th[t].todo = {k} THEN "c_finish" ELSE "c_resetting"])
   /\ UNCHANGED <<hotId, size, snapshotSize, snapObjSize, snapshotting, lost, strayed>>
 CFinish(t) ==
-  /\ th[t].pc = "c_finish"
+  /\ th[t].pc = "c_finish" /\ ~SnapLocked
   /\ Step(t, Done([th[t] EXCEPT !.err = "ok"]))
   /\ snapshotting' = FALSE
   /\ IF th[t].succ
@@ -226,7 +244,7 @@ DelKeys(ks, lo, hi, full, acc) ==
                         am |-> [acc.am EXCEPT ![k] = [t \in Times |-> IF t >= lo /\ t <= hi THEN NoVal ELSE @[t]]],
                         dec |-> acc.dec + Bytes(e) - Bytes(f)])
 DDeleteOn(t, r) ==
-  /\ r.pc = "d_del"
+  /\ r.pc = "d_del" /\ ~SnapLocked
   /\ LET d == DelKeys(r.ks, r.lo, r.hi, r.full, [st |-> ring[hotId], am |-> amap[hotId], dec |-> 0])
      IN /\ ring' = [ring EXCEPT ![hotId] = d.st]
         /\ amap' = [amap EXCEPT ![hotId] = d.am]
@@ -237,7 +255,7 @@ DDeleteOn(t, r) ==
 \* ---- Values(k): (1) entry.deduplicate() of the hot and the snapshot entry in place -- no size refund: `lost` --
 \*      (2) copy both under their read locks, merge, de-duplicate the copy
 RDedupOn(t, r) ==
-  /\ r.pc = "r_dedup"
+  /\ r.pc = "r_dedup" /\ ~SnapLocked
   /\ LET k == r.k
          h == ring[hotId][k]
          s == ring[snapId][k]
@@ -278,7 +296,7 @@ Start(t, r) == /\ CanStart(t)
 
 \* any internal step of thread t (used as the linearization steps of TraceCache)
 Internal(t) == \/ WLoad1(t) \/ WCheck(t) \/ WCapture(t) \/ WReserve(t) \/ (\E k \in Keys : WStore(t, k))
-               \/ SSnap(t) \/ CReset(t) \/ CFinish(t) \/ DDelete(t) \/ RDedup(t) \/ RCopy(t) \/ ZLoad1(t) \/ ZLoad2(t)
+               \/ SSnap(t) \/ SZero(t) \/ CReset(t) \/ (\E k \in Keys : CResetKey(t, k)) \/ CFinish(t) \/ DDelete(t) \/ RDedup(t) \/ RCopy(t) \/ ZLoad1(t) \/ ZLoad2(t)
 Return(t) ==
   /\ th[t].pc = "done"
   /\ Step(t, Idle)
@@ -350,7 +368,9 @@ IWCapture == \E t \in Threads : WCapture(t) /\ UNCHANGED aux
 IWReserve == \E t \in Threads : WReserve(t) /\ UNCHANGED aux
 IWStore   == \E t \in Threads : \E k \in Keys : WStore(t, k) /\ UNCHANGED aux
 ISSnap    == \E t \in Threads : SSnap(t) /\ UNCHANGED aux
+ISZero    == \E t \in Threads : SZero(t) /\ UNCHANGED aux
 ICReset   == \E t \in Threads : CReset(t) /\ UNCHANGED aux
+ICResetK  == \E t \in Threads : \E k \in Keys : CResetKey(t, k) /\ UNCHANGED aux
 ICFinish  == \E t \in Threads : CFinish(t) /\ UNCHANGED aux
 IDDelete  == \E t \in Threads : DDelete(t) /\ UNCHANGED aux
 IRDedup   == \E t \in Threads : RDedup(t) /\ UNCHANGED aux
@@ -369,7 +389,7 @@ DoReturn == \E t \in Threads :
               /\ UNCHANGED <<cnt, nextId>>
 
 Next == \/ DoStartWrite \/ DoStartSnapshot \/ DoStartClear \/ DoStartDelete \/ DoStartRead \/ DoStartSize
-        \/ IWLoad1 \/ IWCheck \/ IWCapture \/ IWReserve \/ IWStore \/ ISSnap \/ ICReset \/ ICFinish \/ IDDelete
+        \/ IWLoad1 \/ IWCheck \/ IWCapture \/ IWReserve \/ IWStore \/ ISSnap \/ ISZero \/ ICReset \/ ICResetK \/ ICFinish \/ IDDelete
         \/ IRDedup \/ IRCopy \/ IZLoad1 \/ IZLoad2 \/ DoReturn
 Spec == Init /\ [][Next]_vars
 
@@ -377,7 +397,7 @@ Spec == Init /\ [][Next]_vars
 \* reading = de-duplicated union of snapshot and hot values, hot winning (for every key, in every reachable state)
 ValuesContract == \A k \in Keys : ImplRead(k) = ContractRead(k)
 \* no write between increaseSize and its last store.write, no ClearSnapshot between its two halves
-Quiescent == \A t \in Threads : th[t].pc \notin {"w_store", "c_finish"}
+Quiescent == \A t \in Threads : th[t].pc \notin {"w_store", "s_zero", "c_resetting", "c_finish"}
 \* the counters equal the bytes actually held, up to the two named deviations
 SizeAccounting == (Quiescent /\ ~strayed) => Reported = Accounted + lost.hot + lost.snap
 \* the strict contract of C09 (expected to FAIL on the model: leads F8 / stray write; used by the *_lead configs)
